@@ -56,6 +56,11 @@ def sid_to_sid(sid: str | Sid) -> Sid:
         new_sid._init(string=string, type=_type, fields=fields)
         return new_sid
 
+    elif string and not _type:
+        # a query cannot be applied to an untyped Sid: it stays untyped, the query is kept in the string
+        new_sid._init(string=f"{string}?{query}")
+        return new_sid
+
     # applying the query (applying the query may update the type)
     else:
         string, _type, fields = apply_query(string, query=query, type=_type, fields=fields)
